@@ -34,7 +34,8 @@ RECIPES = {
         level="model_checking",
         monitors={"C05"},
         mc=[MC_QM, MC_CLEAN],
-        runs=[dict(cmd="run", gen=MIX, policy="always_flush")],
+        runs=[dict(cmd="run", gen=MIX, policy="always_flush"),
+              dict(cmd="run", genreal="GEN_Wal.cfg", genreal_thorough="GEN_Wal_5.cfg")],
         rule="every call of every script: result and full observable state (queue set, records, next, last_position, "
              "last_record, summary, 4 range probes) compared with QueueMap by TLC; non-trivial = calls executed",
         nontrivial_stat="calls",
@@ -44,7 +45,8 @@ RECIPES = {
         monitors={"C01"},
         mc=[MC_QM, MC_CLEAN],
         runs=[dict(cmd="run", gen="restarts:120,gc-heavy:20,big:8,many-queues:8,names:8,aim-gc:60,aim-roll:30,aim-block:20,aim-batch:10", policy="always_flush"),
-              dict(cmd="run", gen="restarts:30,gc-heavy:6", policy="do_nothing,always_fsync,on_delay_long_flush")],
+              dict(cmd="run", gen="restarts:30,gc-heavy:6", policy="do_nothing,always_fsync,on_delay_long_flush"),
+              dict(cmd="run", genreal="GEN_Wal.cfg", genreal_thorough="GEN_Wal_5.cfg")],
         rule="state after every Drop+open compared with QueueMap's state before it; non-trivial = restarts executed",
         nontrivial_stat="restarts",
     ),
@@ -105,7 +107,8 @@ RECIPES = {
         monitors={"C06"},
         mc=[MC_CLEAN],
         runs=[dict(cmd="run", gen="gc-heavy:40,many-queues:12,big:10,restarts:20,aim-roll:80,aim-gc:40", policy="always_flush"),
-              dict(cmd="run", gen="gc-heavy:10", policy="do_nothing,always_fsync")],
+              dict(cmd="run", gen="gc-heavy:10", policy="do_nothing,always_fsync"),
+              dict(cmd="run", genreal="GEN_Wal.cfg", genreal_thorough="GEN_Wal_5.cfg")],
         rule="after every truncate / delete / open of crash-free scripts: real readdir is a contiguous run ending at "
              "the writer's file, nothing older than min(oldest attribution, file at call start), disk_used = files * "
              "FILE_NUM_BYTES; non-trivial = truncate/delete/restart calls",
